@@ -103,6 +103,17 @@ def _orient_key(e: ast.AST) -> tuple:
 class _Shape(ast.NodeTransformer):
     def visit_Call(self, node: ast.Call):
         self.generic_visit(node)
+        # K14: `set(chain.from_iterable(E for X in Y))` is `{e for X in Y for e in E}` (likewise list / sorted keep their wrapper):
+        # flattening through itertools is the nested comprehension
+        if isinstance(node.func, ast.Name) and node.func.id in ("set", "frozenset") and len(node.args) == 1 and not node.keywords:
+            inner = node.args[0]
+            if isinstance(inner, ast.Call) and ast.unparse(inner.func) in ("chain.from_iterable", "itertools.chain.from_iterable") \
+                    and len(inner.args) == 1 and isinstance(inner.args[0], (ast.GeneratorExp, ast.ListComp)) and node.func.id == "set":
+                g = inner.args[0]
+                used = {n.id for n in ast.walk(g) if isinstance(n, ast.Name)}
+                var = "lic" if "lic" not in used else "flat_item"
+                gens = list(g.generators) + [ast.comprehension(target=ast.Name(id=var, ctx=ast.Store()), iter=g.elt, ifs=[], is_async=0)]
+                return ast.copy_location(ast.SetComp(elt=ast.Name(id=var, ctx=ast.Load()), generators=gens), node)
         js = _format_to_fstring(node)
         return ast.copy_location(js, node) if js is not None else node
 
@@ -829,19 +840,146 @@ def _inline_unknown_helpers(tree: ast.Module, modname: str, known: set[str], log
     """A private module-level function that the reference tree does not have, with exactly one call site (in this
     module, at statement level), is substituted into its caller: code that was moved into a new helper is analysed
     where it came from.  Parameters become fresh locals bound to the arguments; the helper's locals get a suffix."""
-    defs = {n.name: n for n in tree.body if isinstance(n, ast.FunctionDef) and n.name.startswith("_")
-            and f"{modname}.{n.name}" not in known and _eligible_helper(n)}
+    new_fns = {n.name: n for n in tree.body if isinstance(n, ast.FunctionDef) and not (n.name.startswith("__") and n.name.endswith("__"))
+               and f"{modname}.{n.name}" not in known and not n.decorator_list}
+    if not new_fns:
+        return
+    import copy
+    _substitute_expression_helpers(tree, new_fns)
+    defs = {k: v for k, v in new_fns.items() if _eligible_helper(v)}
     if not defs:
         return
+    _hoist_nested_helper_calls(tree, defs)
     uses: dict[str, list] = {k: [] for k in defs}
     for n in ast.walk(tree):
         if isinstance(n, ast.Name) and n.id in uses and isinstance(n.ctx, ast.Load):
             uses[n.id].append(n)
-    import copy
     for name, d in defs.items():
-        if len(uses[name]) != 1:
+        if not 1 <= len(uses[name]) <= 4:
             continue
-        use = uses[name][0]
+        # every use must be the callee of a statement-level call outside the helper itself, else nothing is inlined
+        for use in list(uses[name]):
+            _inline_one_use(tree, modname, name, d, use, log)
+        if not any(isinstance(n, ast.Name) and n.id == name and isinstance(n.ctx, ast.Load) for n in ast.walk(tree)
+                   if not any(n is x for x in ast.walk(d))):
+            tree.body = [x for x in tree.body if x is not d]
+
+
+def _substitute_expression_helpers(tree: ast.Module, defs: dict) -> None:
+    """A new helper whose body is a single `return EXPR` is substituted as an EXPRESSION wherever it is called with call-free
+    arguments (names, constants, attribute chains): `_matches_any(PATTERNS, name)` becomes `any(p.fullmatch(name) for p in
+    PATTERNS)` in place - also inside an `if` test, where a statement cannot be hoisted.  Comprehension variables of the
+    helper are renamed apart from the names of the call site."""
+    import copy
+    simple = {}
+    for name, d in defs.items():
+        body = list(d.body)
+        if body and isinstance(body[0], ast.Expr) and isinstance(body[0].value, ast.Constant) and isinstance(body[0].value.value, str):
+            body = body[1:]
+        a = d.args
+        if len(body) == 1 and isinstance(body[0], ast.Return) and body[0].value is not None and not a.defaults and not a.kwarg \
+                and not a.kwonlyargs and not a.posonlyargs and not any(isinstance(n, (ast.Lambda, ast.Yield, ast.YieldFrom, ast.Await)) for n in ast.walk(body[0])):
+            if a.vararg is not None:
+                # `*parts` may only be passed on as `*parts` in a call of the expression
+                va = a.vararg.arg
+                uses_ = [n for n in ast.walk(body[0].value) if isinstance(n, ast.Name) and n.id == va]
+                starred = [n for n in ast.walk(body[0].value) if isinstance(n, ast.Starred) and isinstance(n.value, ast.Name) and n.value.id == va]
+                if len(uses_) != len(starred):
+                    continue
+            simple[name] = (d, body[0].value)
+    if not simple:
+        return
+
+    class Sub(ast.NodeTransformer):
+        site_names: set = set()
+
+        def visit_Call(self, node: ast.Call):
+            self.generic_visit(node)
+            if isinstance(node.func, ast.Name) and node.func.id in simple and not node.keywords \
+                    and not any(isinstance(a, ast.Starred) for a in node.args):
+                d, expr = simple[node.func.id]
+                params = [p.arg for p in d.args.args]
+                va = d.args.vararg.arg if d.args.vararg is not None else None
+                if (len(node.args) != len(params) and va is None) or len(node.args) < len(params) or not all(_call_free(a) for a in node.args):
+                    return node
+                bound = dict(zip(params, node.args))
+                extra = list(node.args[len(params):])
+                stored = {n.id for n in ast.walk(expr) if isinstance(n, ast.Name) and isinstance(n.ctx, ast.Store)}
+                if stored & set(params):
+                    return node
+                suffix = "__" + node.func.id.strip("_")
+                e2 = copy.deepcopy(expr)
+
+                class Ren(ast.NodeTransformer):
+                    def visit_Call(self, c):
+                        self.generic_visit(c)
+                        if va is not None:
+                            new_args = []
+                            for a_ in c.args:
+                                if isinstance(a_, ast.Starred) and isinstance(a_.value, ast.Name) and a_.value.id == va:
+                                    new_args += [copy.deepcopy(x) for x in extra]
+                                else:
+                                    new_args.append(a_)
+                            c.args = new_args
+                        return c
+
+                    def visit_Name(self, n):
+                        if n.id in bound and isinstance(n.ctx, ast.Load):
+                            return copy.deepcopy(bound[n.id])
+                        if n.id in stored and n.id in Sub.site_names:   # renamed apart only where the call site uses the name itself
+                            return ast.copy_location(ast.Name(id=n.id + suffix, ctx=n.ctx), n)
+                        return n
+                return ast.copy_location(Ren().visit(e2), node)
+            return node
+
+    for top in tree.body:
+        if isinstance(top, ast.FunctionDef) and top.name in simple:
+            continue
+        Sub.site_names = {n.id for n in ast.walk(top) if isinstance(n, ast.Name)} | {a.arg for n in ast.walk(top) if isinstance(n, ast.arguments) for a in n.args + n.kwonlyargs}
+        Sub().visit(top)
+    ast.fix_missing_locations(tree)
+
+
+def _hoist_nested_helper_calls(tree: ast.Module, defs: dict) -> None:
+    """`outer(a, helper(x), k=helper(y))` at statement level becomes `t = helper(x); outer(a, t, …)` when every argument that
+    is evaluated BEFORE the helper call is call-free (so moving the call in front of the statement keeps the order of effects)."""
+    counter = [0]
+    for owner in ast.walk(tree):
+        for field in ("body", "orelse", "finalbody"):
+            stmts = getattr(owner, field, None)
+            if not (isinstance(stmts, list) and stmts and isinstance(stmts[0], ast.stmt)):
+                continue
+            idx = 0
+            while idx < len(stmts):
+                st = stmts[idx]
+                outer = st.value if isinstance(st, (ast.Expr, ast.Assign, ast.AugAssign, ast.Return)) and isinstance(getattr(st, "value", None), ast.Call) else None
+                hoisted = False
+                if outer is not None and not (isinstance(outer.func, ast.Name) and outer.func.id in defs):
+                    operands = [("a", i, a) for i, a in enumerate(outer.args)] + [("k", i, k.value) for i, k in enumerate(outer.keywords)]
+                    for pos, (kind, i, a) in enumerate(operands):
+                        if isinstance(a, ast.Call) and isinstance(a.func, ast.Name) and a.func.id in defs:
+                            earlier = [x for _, _, x in operands[:pos]]
+                            if all(_call_free(x) for x in earlier) and _call_free(outer.func):
+                                counter[0] += 1
+                                tmp = f"{a.func.id.strip('_')}__value{counter[0]}"
+                                asg = ast.copy_location(ast.Assign(targets=[ast.Name(id=tmp, ctx=ast.Store())], value=a), st)
+                                ref = ast.copy_location(ast.Name(id=tmp, ctx=ast.Load()), a)
+                                if kind == "a":
+                                    outer.args[i] = ref
+                                else:
+                                    outer.keywords[i].value = ref
+                                stmts.insert(idx, asg)
+                                hoisted = True
+                                break
+                if not hoisted:
+                    idx += 1
+                else:
+                    idx += 1   # the inserted assignment; the statement itself is looked at again for further nested calls
+
+
+def _inline_one_use(tree: ast.Module, modname: str, name: str, d: ast.FunctionDef, use: ast.Name, log: Optional[list]) -> None:
+    import copy
+    if True:
         # find the statement and its container
         done = False
         for owner in ast.walk(tree):
@@ -966,9 +1104,8 @@ def _inline_unknown_helpers(tree: ast.Module, modname: str, known: set[str], log
                     if has_return or not isinstance(st, ast.Expr):
                         body = rewrite_tail(body)
                     stmts[idx:idx + 1] = pre + body
-                    tree.body = [x for x in tree.body if x is not d]
                     if log is not None:
-                        log.append((f"{modname}.{name}", "inlined into its only caller"))
+                        log.append((f"{modname}.{name}", "inlined into a caller"))
                     done = True
                     break
                 if done:
